@@ -11,14 +11,14 @@ from . import gen
 from .refmodel import Registry
 
 # the failing callable and the verbatim one weigh more: what they raise / return is a dimension of its own
-METHOD_NAMES = Registry.NAMES + ["nope", "fault", "system.listMethods", "_private", "echo ", " echo", "rpc.unknown", "boom", "boom", "boom"]
+METHOD_NAMES = Registry.NAMES + ["nope", "fault", "system.listMethods", "_private", "echo ", " echo", "rpc.unknown", "boom", "boom", "boom", "nonjson", "nonjson", "badkeys"]
 
 values = gen.json_values(6)
 
 # numbers at the limits of what the parser builds: an integer far beyond any float, a float at the edge
 HUGE = [10 ** 400, -(10 ** 400), 10 ** 308, 1.7976931348623157e308, 2 ** 64, 5e-324]
 
-ids = st.one_of(
+ids = gen.pick(
     st.just(None), st.just(""), st.just(0), st.integers(-5, 5), st.just(1.5),
     st.just(-0.0), st.just(0.0), st.text(gen.TEXT_ALPHABET, max_size=3),
     st.sampled_from(["1", "null", "id", " "]), st.booleans(),
@@ -35,7 +35,7 @@ versions = st.sampled_from(["2.0", "2.0", "2.0", 2, 2.0, None, "1.0", "", "abc",
 TRICKY_KEYS = ["self", "func", "method", "params", "args", "kwargs", "config", "cls", "name", "request"]
 # strings holding unpaired surrogates: a valid (ASCII) JSON text can spell them with \\uXXXX escapes
 SURROGATE_TEXT = ["\ud83d", "a\udfffb", "\ud800\ud800"]
-values = st.one_of(values, values, values, values, st.sampled_from(SURROGATE_TEXT), st.sampled_from(HUGE))
+values = gen.pick(values, values, values, values, st.sampled_from(SURROGATE_TEXT), st.sampled_from(HUGE))
 
 # values shaped like the protocol's own messages (in-band look-alikes): a callable may
 # legitimately return a stored reply, a request to forward, an error description
@@ -52,9 +52,9 @@ LOOKALIKES = [
     {"faultCode": 1, "faultString": "x"},
     [{"jsonrpc": "2.0", "id": 1, "result": 1}],
 ]
-values = st.one_of(values, values, values, values, values, values, st.sampled_from(LOOKALIKES))
+values = gen.pick(values, values, values, values, values, values, st.sampled_from(LOOKALIKES))
 
-good_params = st.one_of(
+good_params = gen.pick(
     st.lists(values, max_size=3),
     st.dictionaries(st.sampled_from(["a", "b", "c", "k", "é"]), values, max_size=3),
     st.dictionaries(st.sampled_from(["a", "b"] + TRICKY_KEYS), values, max_size=3),
@@ -101,14 +101,14 @@ def mangled_entries(draw):
     if draw(st.integers(0, 2)):
         pairs.append(["id", draw(ids)])
     if draw(st.integers(0, 3)):
-        pairs.append(["method", draw(st.one_of(st.sampled_from(METHOD_NAMES), values, st.just("")))])
+        pairs.append(["method", draw(gen.pick(st.sampled_from(METHOD_NAMES), values, st.just("")))])
     if draw(st.integers(0, 2)):
-        pairs.append(["params", draw(st.one_of(good_params, values))])
+        pairs.append(["params", draw(gen.pick(good_params, values))])
     for _ in range(draw(st.integers(0, 2))):
         if draw(st.booleans()):
             # duplicate of an existing member
             k = draw(st.sampled_from(["jsonrpc", "id", "method", "params"]))
-            v = draw(st.one_of(ids, values, st.sampled_from(METHOD_NAMES)))
+            v = draw(gen.pick(ids, values, st.sampled_from(METHOD_NAMES)))
         else:
             k, v = draw(gen.json_keys()), draw(values)
         pairs.append([k, v])
@@ -120,13 +120,13 @@ nonobject_entries = values.filter(lambda v: not isinstance(v, dict)).map(lambda 
 
 
 def entries(methods=None):
-    return st.one_of(valid_entries(methods), valid_entries(methods), valid_entries(methods),
+    return gen.pick(valid_entries(methods), valid_entries(methods), valid_entries(methods),
                      mangled_entries(), nonobject_entries)
 
 
 def bodies(methods=None, max_batch=6):
     e = entries(methods)
-    return st.one_of(
+    return gen.pick(
         e.map(lambda x: ("single", x)),
         st.lists(e, min_size=0, max_size=max_batch).map(lambda l: ("batch", l)),
         st.lists(valid_entries(methods, notif_bias=True), min_size=1, max_size=max_batch).map(lambda l: ("batch", l)),
@@ -155,7 +155,7 @@ def damaged_texts(draw, bases=None):
     base = draw(st.sampled_from(bases or SEED_TEXTS))
     op = draw(st.sampled_from(["truncate", "delete", "substitute", "insert", "swap", "dup"]))
     i = draw(st.integers(0, max(len(base) - 1, 0)))
-    ch = draw(st.one_of(st.sampled_from(DAMAGE_CHARS), st.characters()))
+    ch = draw(gen.pick(st.sampled_from(DAMAGE_CHARS), st.characters()))
     if op == "truncate":
         text = base[:i]
     elif op == "delete":
@@ -188,7 +188,7 @@ def exhaustive_damage(bases=None, chars=None):
                 yield ("text", base[:i] + ch + base[i:])
 
 
-arbitrary_texts = st.one_of(
+arbitrary_texts = gen.pick(
     st.text(max_size=40),
     st.text(st.sampled_from(list('{}[]",:0123456789.-+eEtrufalsn \n\t\\')), max_size=40),
     st.sampled_from(["", " ", "\n", "﻿", "﻿{}", "{", "[", "nul", "null", "true", "0", "-", "-0", "1e5", '""', '"a"', "[]", "{}", "[[]]", "[{}]", "[[1]]", "[null]", "[0]",
@@ -254,7 +254,7 @@ LONG_SHAPES = ["garbage", "string-scalar", "truncated", "no-request", "valid-ech
 def long_texts(draw, max_bytes=70000):
     pad_char = draw(st.sampled_from(["x", "\u00e9", "\u20ac", "\U0001F600", "\u00e9", "\U0001F600", "\\u00e9", "1", "ab\u00e9"]))
     near = st.sampled_from([256, 512, 1024, 2048, 4096, 8192, 16384, 32768, 65536]).flatmap(lambda b: st.integers(b - 48, b + 48))
-    target = draw(st.one_of(near, near, st.integers(100, max_bytes)))
+    target = draw(gen.pick(near, near, st.integers(100, max_bytes)))
     target = min(target, max_bytes)
     shift = draw(st.text("ab", max_size=3))
     n = max(1, target // len(pad_char.encode("utf-8")))
